@@ -3,6 +3,8 @@
 package cl
 
 import (
+	"math/big"
+
 	"github.com/ohler55/slip"
 )
 
@@ -17,9 +19,9 @@ func init() {
 			Name: "lcm",
 			Args: []*slip.DocArg{
 				{Name: "&rest"},
-				{Name: "integers", Type: "fixnum"},
+				{Name: "integers", Type: "integer"},
 			},
-			Return: "fixnum",
+			Return: "integer",
 			Text:   `__lcm__ returns the least common multiple of _integers_.`,
 			Examples: []string{
 				"(lcm) => 1",
@@ -40,7 +42,10 @@ func (f *Lcm) Call(s *slip.Scope, args slip.List, depth int) slip.Object {
 	for i, a := range args {
 		num, ok := a.(slip.Fixnum)
 		if !ok {
-			slip.TypePanic(s, depth, "integers", a, "fixnum")
+			if _, ok = a.(*slip.Bignum); ok {
+				return bigLcm(s, args, depth)
+			}
+			slip.TypePanic(s, depth, "integers", a, "integer")
 		}
 		switch {
 		case num == 0:
@@ -55,4 +60,30 @@ func (f *Lcm) Call(s *slip.Scope, args slip.List, depth int) slip.Object {
 		}
 	}
 	return z
+}
+
+// bigLcm is the fallback for integers that are not all fixnums or when the
+// result does not fit in a fixnum.
+func bigLcm(s *slip.Scope, args slip.List, depth int) slip.Object {
+	z := big.NewInt(1)
+	var g big.Int
+	for _, a := range args {
+		var num *big.Int
+		switch ta := a.(type) {
+		case slip.Fixnum:
+			num = big.NewInt(int64(ta))
+		case *slip.Bignum:
+			num = (*big.Int)(ta)
+		default:
+			slip.TypePanic(s, depth, "integers", a, "integer")
+		}
+		if num.Sign() == 0 {
+			return slip.Fixnum(0)
+		}
+		g.GCD(nil, nil, z, num)
+		z.Quo(z, &g)
+		z.Mul(z, num)
+		z.Abs(z)
+	}
+	return bigToInteger(z)
 }
